@@ -236,7 +236,7 @@ func c12o2(c *core.Ctx) {
 		"fmt": "formatting of panic messages and errors", "math": "constants", "math/bits": "pure bit arithmetic", "reflect": "type metadata and GC-safe copies (classified per symbol)",
 		"sync": "mutexes only", "time": "Shrink time box only", "unsafe": "pointer arithmetic via unsafe.Add", "encoding/binary": "pure codec", "encoding/json": "codec on arrays (no maps)",
 		core.EcsPath + "/stats": "statistics data types",
-		"strings": "pure string functions", "strconv": "pure conversions", "sort": "deterministic sorting", "slices": "deterministic slice functions",
+		"strings":               "pure string functions", "strconv": "pure conversions", "sort": "deterministic sorting", "slices": "deterministic slice functions",
 		"errors": "error values", "bytes": "pure byte functions", "unicode": "pure", "unicode/utf8": "pure", "cmp": "pure",
 	}
 	for _, pkg := range []*struct {
